@@ -17,6 +17,13 @@ from .vloop import CLOCK
 logging.getLogger("repid").setLevel(100)
 
 
+SPIN_STEPS = 150_000
+
+
+class _Spin(Exception):
+    pass
+
+
 @dataclass
 class Scenario:
     seed: int
@@ -79,8 +86,27 @@ async def run_history(loop, sc: Scenario, make=None, projector=None, latency_us=
     stats = {"ops": 0, "cancelled": 0, "consumed": 0, "opsteps": {}}
     RK = broker.ROUTING_KEY_CLASS
 
+    # a broker call (or a consumer's background task) that spins without virtual time passing would hang the harness: after
+    # SPIN_STEPS loop steps at one instant every task but this one is cancelled and the history ends with a `spin' event
+    spin = {"us": CLOCK.us, "steps": loop.steps, "hit": False}
+    me = asyncio.current_task()
+    prev_after0 = loop.after_handle
+
+    def spin_guard(h):
+        prev_after0(h)
+        if CLOCK.us != spin["us"]:
+            spin["us"], spin["steps"] = CLOCK.us, loop.steps
+        elif loop.steps - spin["steps"] > SPIN_STEPS and not spin["hit"]:
+            spin["hit"] = True
+            for t in asyncio.all_tasks(loop):
+                if t is not me:
+                    t.cancel()
+    loop.after_handle = spin_guard
+
     async def do(op_index, coro_fn):
         """run one API call as its own task; inject cancellation if asked to"""
+        if spin["hit"]:
+            raise _Spin
         t = asyncio.ensure_future(coro_fn())
         s0 = loop.steps
         t.add_done_callback(lambda _t: stats["opsteps"].__setitem__(op_index, loop.steps - s0))
@@ -128,145 +154,154 @@ async def run_history(loop, sc: Scenario, make=None, projector=None, latency_us=
         return Parameters(timestamp=now, **kw)
 
     for n in range(len(sc.script) if sc.script else sc.nops):
-        choices = []
-        w = sc.weights
-        if nid < sc.max_ids:
-            choices += ["enq"] * w.get("enq", 4)
-        for ci, c in enumerate(cons):
-            if not c["on"]:
-                choices += [("start", ci)] * w.get("start", 2)
-            elif c.get("bg") is not None:
-                # a consume() call is waiting in the background: the client goes on with other things (or collects it)
-                choices += [("join", ci)] * w.get("join", 0)
-            else:
-                choices += [("consume", ci)] * w.get("consume", 4)
-                choices += [("consume_bg", ci)] * w.get("consume_bg", 0)
-                choices += [("finish", ci)] * w.get("finish", 1)
-            if c["on"]:
-                choices += [("unpause", ci) if c.get("paused") else ("pause", ci)] * w.get("pause", 0)
-            for hi in range(len(c["held"])):
-                for o in ("ack", "nack", "reject", "requeue"):
-                    if o == "nack" and c["cat"] != "NORMAL" and not w.get("nack_any"):
-                        continue  # message API refuses it; broker-level histories stay within C16
-                    choices += [(o, ci, hi)] * w.get(o, 1)
-        choices += ["sleep"] * w.get("sleep", 2)
-        if hasattr(broker, "maintenance"):
-            # another client of the same broker connects / disconnects: the broker's maintenance runs
-            choices += ["maint"] * w.get("maint", 0)
-        for q in queues:
-            choices += [("qflush", q)] * w.get("flush", 0)
-            choices += [("qdeclare", q)] * w.get("declare", 0)
-            # a queue is deleted only while nobody is listening on it or holds one of its messages
-            if not any(c["q"] == q and (c["on"] or c["held"]) for c in cons):
-                choices += [("qdelete", q)] * w.get("delete", 0)
-        ch = rng.choice(choices)
-        if sc.script:
-            ch = sc.script[n]
-            ch = tuple(ch) if isinstance(ch, list) else ch
-            if ch not in ("enq", "maint") and ch[0] != "sleep" and ch not in choices:
-                continue                   # (not applicable in the client's present state, e.g. after an interrupted call)
-        stats["ops"] += 1
-        if ch == "enq":
-            nid += 1
-            q = rng.choice(queues)
-            topic = rng.choice(sc.topics)
-            delay = None if sc.fifo_only else rng.choice(sc.delays_ms)
-            ttl = None if sc.fifo_only else rng.choice(sc.ttls_ms)
-            key = RK(id_=f"m{nid}", topic=topic, queue=q, priority=rng.choice(sc.prios))
-            params = mkparams(delay, ttl)
-            payload = f'{{"n":{nid}}}'
-            oplog.append(("enq", key.id_, topic, delay, ttl))
-            await do(n, lambda: broker.enqueue(key, payload, params))
-        elif ch == "maint":
-            oplog.append(("maint",))
-            if hasattr(broker, "maintenance"):
-                await broker.maintenance()
-        elif ch == "sleep" or ch[0] == "sleep":
-            ms = rng.choice(sc.sleeps_ms) if ch == "sleep" else ch[1]
-            oplog.append(("sleep", ms))
-            await asyncio.sleep(ms / 1000)
-        elif ch[0] in ("qflush", "qdeclare", "qdelete"):
-            q = ch[1]
-            oplog.append(ch)
-            if ch[0] == "qflush":
-                await do(n, lambda: broker.queue_flush(q))
-            elif ch[0] == "qdeclare":
-                await do(n, lambda: broker.queue_declare(q))
-            else:
-                await do(n, lambda: broker.queue_delete(q))
-                await broker.queue_declare(q)      # (the histories go on using the queue ...
-                for ci, c in enumerate(cons):      #  ... through consumers created after it was declared again)
-                    if c["q"] == q:
-                        c["obj"] = broker.get_consumer(q, sc.consumers[ci][1], None, MessageCategory[c["cat"]])
-        elif ch[0] == "start":
-            c = cons[ch[1]]
-            oplog.append(("start", ch[1]))
-            r = await do(n, c["obj"].start)
-            # (an interrupted start may or may not have taken effect: the client treats the consumer as
-            #  started, so that it will be finished -- a well-behaved client does not abandon it)
-            c["on"] = True
-        elif ch[0] == "finish":
-            c = cons[ch[1]]
-            oplog.append(("finish", ch[1]))
-            await do(n, c["obj"].finish)
-            c["on"] = False
-            c["held"] = []
-            # a finished consumer object is not restarted; take a fresh one (like Queue.get_messages)
-            c["obj"] = broker.get_consumer(c["q"], sc.consumers[ch[1]][1], None, MessageCategory[c["cat"]])
-        elif ch[0] in ("pause", "unpause"):
-            c = cons[ch[1]]
-            oplog.append(ch)
-            r = await do(n, getattr(c["obj"], ch[0]))
-            if r != "CANCELLED":             # (an interrupted pause may not have taken effect: the client does not unpause it)
-                c["paused"] = ch[0] == "pause"
-        elif ch[0] in ("consume", "consume_bg", "join"):
-            c = cons[ch[1]]
-            if ch[0] == "join":
-                oplog.append(ch)
-                t = c.pop("bg")
-                c["bg"] = None
-            else:
-                tmo = rng.choice(sc.consume_tmo_ms) if ch[0] == "consume" else 8000
-                oplog.append((ch[0], ch[1], tmo))
+      try:
+          if spin["hit"]:
+              raise _Spin
+          choices = []
+          w = sc.weights
+          if nid < sc.max_ids:
+              choices += ["enq"] * w.get("enq", 4)
+          for ci, c in enumerate(cons):
+              if not c["on"]:
+                  choices += [("start", ci)] * w.get("start", 2)
+              elif c.get("bg") is not None:
+                  # a consume() call is waiting in the background: the client goes on with other things (or collects it)
+                  choices += [("join", ci)] * w.get("join", 0)
+              else:
+                  choices += [("consume", ci)] * w.get("consume", 4)
+                  choices += [("consume_bg", ci)] * w.get("consume_bg", 0)
+                  choices += [("finish", ci)] * w.get("finish", 1)
+              if c["on"]:
+                  choices += [("unpause", ci) if c.get("paused") else ("pause", ci)] * w.get("pause", 0)
+              for hi in range(len(c["held"])):
+                  for o in ("ack", "nack", "reject", "requeue"):
+                      if o == "nack" and c["cat"] != "NORMAL" and not w.get("nack_any"):
+                          continue  # message API refuses it; broker-level histories stay within C16
+                      choices += [(o, ci, hi)] * w.get(o, 1)
+          choices += ["sleep"] * w.get("sleep", 2)
+          if hasattr(broker, "maintenance"):
+              # another client of the same broker connects / disconnects: the broker's maintenance runs
+              choices += ["maint"] * w.get("maint", 0)
+          for q in queues:
+              choices += [("qflush", q)] * w.get("flush", 0)
+              choices += [("qdeclare", q)] * w.get("declare", 0)
+              # a queue is deleted only while nobody is listening on it or holds one of its messages
+              if not any(c["q"] == q and (c["on"] or c["held"]) for c in cons):
+                  choices += [("qdelete", q)] * w.get("delete", 0)
+          ch = rng.choice(choices)
+          if sc.script:
+              ch = sc.script[n]
+              ch = tuple(ch) if isinstance(ch, list) else ch
+              if ch not in ("enq", "maint") and ch[0] != "sleep" and ch not in choices:
+                  continue                   # (not applicable in the client's present state, e.g. after an interrupted call)
+          stats["ops"] += 1
+          if ch == "enq":
+              nid += 1
+              q = rng.choice(queues)
+              topic = rng.choice(sc.topics)
+              delay = None if sc.fifo_only else rng.choice(sc.delays_ms)
+              ttl = None if sc.fifo_only else rng.choice(sc.ttls_ms)
+              key = RK(id_=f"m{nid}", topic=topic, queue=q, priority=rng.choice(sc.prios))
+              params = mkparams(delay, ttl)
+              payload = f'{{"n":{nid}}}'
+              oplog.append(("enq", key.id_, topic, delay, ttl))
+              await do(n, lambda: broker.enqueue(key, payload, params))
+          elif ch == "maint":
+              oplog.append(("maint",))
+              if hasattr(broker, "maintenance"):
+                  await broker.maintenance()
+          elif ch == "sleep" or ch[0] == "sleep":
+              ms = rng.choice(sc.sleeps_ms) if ch == "sleep" else ch[1]
+              oplog.append(("sleep", ms))
+              await asyncio.sleep(ms / 1000)
+          elif ch[0] in ("qflush", "qdeclare", "qdelete"):
+              q = ch[1]
+              oplog.append(ch)
+              if ch[0] == "qflush":
+                  await do(n, lambda: broker.queue_flush(q))
+              elif ch[0] == "qdeclare":
+                  await do(n, lambda: broker.queue_declare(q))
+              else:
+                  await do(n, lambda: broker.queue_delete(q))
+                  await broker.queue_declare(q)      # (the histories go on using the queue ...
+                  for ci, c in enumerate(cons):      #  ... through consumers created after it was declared again)
+                      if c["q"] == q:
+                          c["obj"] = broker.get_consumer(q, sc.consumers[ci][1], None, MessageCategory[c["cat"]])
+          elif ch[0] == "start":
+              c = cons[ch[1]]
+              oplog.append(("start", ch[1]))
+              r = await do(n, c["obj"].start)
+              # (an interrupted start may or may not have taken effect: the client treats the consumer as
+              #  started, so that it will be finished -- a well-behaved client does not abandon it)
+              c["on"] = True
+          elif ch[0] == "finish":
+              c = cons[ch[1]]
+              oplog.append(("finish", ch[1]))
+              await do(n, c["obj"].finish)
+              c["on"] = False
+              c["held"] = []
+              # a finished consumer object is not restarted; take a fresh one (like Queue.get_messages)
+              c["obj"] = broker.get_consumer(c["q"], sc.consumers[ch[1]][1], None, MessageCategory[c["cat"]])
+          elif ch[0] in ("pause", "unpause"):
+              c = cons[ch[1]]
+              oplog.append(ch)
+              r = await do(n, getattr(c["obj"], ch[0]))
+              if r != "CANCELLED":             # (an interrupted pause may not have taken effect: the client does not unpause it)
+                  c["paused"] = ch[0] == "pause"
+          elif ch[0] in ("consume", "consume_bg", "join"):
+              c = cons[ch[1]]
+              if ch[0] == "join":
+                  oplog.append(ch)
+                  t = c.pop("bg")
+                  c["bg"] = None
+              else:
+                  tmo = rng.choice(sc.consume_tmo_ms) if ch[0] == "consume" else 8000
+                  oplog.append((ch[0], ch[1], tmo))
 
-                async def consume_with_timeout(obj=c["obj"], tmo=tmo):
-                    return await asyncio.wait_for(obj.consume(), tmo / 1000)
-                t = asyncio.ensure_future(do(n, consume_with_timeout))
-                if ch[0] == "consume_bg":
-                    c["bg"] = t
-                    await asyncio.sleep(0.002)      # let it reach its polling loop
-                    continue
-            try:
-                r = await t
-            except asyncio.TimeoutError:
-                r = None
-            except RuntimeError:          # "Consumer wasn't started." (its start had been interrupted)
-                r = None
-                c["on"] = False
-            if r is not None and r != "CANCELLED":
-                # a duplicate delivery (the same id handed to a second consumer while the first still holds it) is for
-                # the contract to judge; the clients stay well-behaved: only the latest receiver goes on acting on it
-                for other in cons:
-                    other["held"] = [h for h in other["held"] if h[0].id_ != r[0].id_]
-                c["held"].append(r)
-                stats["consumed"] += 1
-        else:
-            o, ci, hi = ch
-            c = cons[ci]
-            key, payload, params = c["held"].pop(hi)
-            oplog.append((o, ci, key.id_))
-            if o == "requeue":
-                delay = None if sc.fifo_only else rng.choice(sc.delays_ms)
-                if delay is None:
-                    newp = Parameters(timestamp=vloop.wall(), ttl=params.ttl, retries=params.retries)
-                else:
-                    newp = params._prepare_retry(timedelta(milliseconds=delay))
-                r = await do(n, lambda: broker.requeue(key, payload + " ", newp))
-            else:
-                r = await do(n, lambda: getattr(broker, o)(key))
-            if r == "CANCELLED":
-                # the client does not know whether the call took effect: it gives the message up
-                pass
+                  async def consume_with_timeout(obj=c["obj"], tmo=tmo):
+                      return await asyncio.wait_for(obj.consume(), tmo / 1000)
+                  t = asyncio.ensure_future(do(n, consume_with_timeout))
+                  if ch[0] == "consume_bg":
+                      c["bg"] = t
+                      await asyncio.sleep(0.002)      # let it reach its polling loop
+                      continue
+              try:
+                  r = await t
+              except asyncio.TimeoutError:
+                  r = None
+              except RuntimeError:          # "Consumer wasn't started." (its start had been interrupted)
+                  r = None
+                  c["on"] = False
+              if r is not None and r != "CANCELLED":
+                  # a duplicate delivery (the same id handed to a second consumer while the first still holds it) is for
+                  # the contract to judge; the clients stay well-behaved: only the latest receiver goes on acting on it
+                  for other in cons:
+                      other["held"] = [h for h in other["held"] if h[0].id_ != r[0].id_]
+                  c["held"].append(r)
+                  stats["consumed"] += 1
+          else:
+              o, ci, hi = ch
+              c = cons[ci]
+              key, payload, params = c["held"].pop(hi)
+              oplog.append((o, ci, key.id_))
+              if o == "requeue":
+                  delay = None if sc.fifo_only else rng.choice(sc.delays_ms)
+                  if delay is None:
+                      newp = Parameters(timestamp=vloop.wall(), ttl=params.ttl, retries=params.retries)
+                  else:
+                      newp = params._prepare_retry(timedelta(milliseconds=delay))
+                  r = await do(n, lambda: broker.requeue(key, payload + " ", newp))
+              else:
+                  r = await do(n, lambda: getattr(broker, o)(key))
+              if r == "CANCELLED":
+                  # the client does not know whether the call took effect: it gives the message up
+                  pass
+      except (_Spin, asyncio.CancelledError):
+          if not spin["hit"]:
+              raise
+          rec.emit({"e": "spin"})       # (no action of the contract explains it: the execution is rejected here)
+          stats["spin"] = True
+          break
     for c in cons:          # nothing is left pending: paused consumers are released, waiting consume() calls collected
         if c.get("paused") and c["on"]:
             try:
